@@ -50,7 +50,7 @@ func exploreFSM(cr *CheckRun, maxn int, witness bool) *fsmGraph {
 		round++
 		mk := func(a, ev string, variant int) Job {
 			return Job{Pkg: fsmPkg, Fn: "VF_FSMStep", Opts: opts, Tag: "state=" + a + " event=" + ev + " variant=" + strconv.Itoa(variant),
-				Case: "state=" + absState(a) + " event=" + ev,
+				Case:   "state=" + absState(a) + " event=" + ev,
 				Params: map[string]string{"abs": a, "event": ev, "variant": strconv.Itoa(variant), "maxn": strconv.Itoa(maxn)}}
 		}
 		var jobs []Job
